@@ -72,9 +72,9 @@ func (d *Data) getLoresCache(v dvid.VersionID, block dvid.IZYXString) ([]byte, e
 
 	// determine which down-res sector (0-7 where it's x, then y, then z ordering) in 2x2x2 block
 	// the given block will sit.
-	nx := chunkPt[0] % 2
-	ny := chunkPt[1] % 2
-	nz := chunkPt[2] % 2
+	nx := chunkPt[0] & 1
+	ny := chunkPt[1] & 1
+	nz := chunkPt[2] & 1
 	sector := (nz * 4) + (ny * 2) + nx
 
 	// Get the sector slice from the octant corresponding to the downres block coord.
